@@ -151,3 +151,73 @@ Proof.
   exists es'. split; [exact R|]. split; [|exact C].
   rewrite L, map_length. apply (copy_all_length x es0 outs Ec).
 Qed.
+
+(* ---------- executable: is an input inside the domain of the theorem, and is its output read back? ---------- *)
+Definition zout_eqb (a b : zout) : bool :=
+  bytes_eqb (zo_name a) (zo_name b) && (zo_method a =? zo_method b) && (zo_time a =? zo_time b) && (zo_date a =? zo_date b) &&
+  (zo_crc a =? zo_crc b) && (zo_csize a =? zo_csize b) && (zo_usize a =? zo_usize b) && (zo_ext a =? zo_ext b) &&
+  bytes_eqb (zo_data a) (zo_data b).
+
+Lemma zout_eqb_refl a : zout_eqb a a = true.
+Proof. unfold zout_eqb. rewrite !bytes_eqb_refl, !N.eqb_refl. reflexivity. Qed.
+
+Fixpoint zouts_eqb (a b : list zout) : bool :=
+  match a, b with
+  | [], [] => true
+  | x :: a', y :: b' => zout_eqb x y && zouts_eqb a' b'
+  | _, _ => false
+  end.
+
+Lemma zouts_eqb_refl a : zouts_eqb a a = true.
+Proof. induction a as [|x a IH]; cbn [zouts_eqb]; [reflexivity | rewrite zout_eqb_refl, IH; reflexivity]. Qed.
+
+Definition has_locator (y : bytes) : bool :=
+  if 42 <=? N.of_nat (length y) then match sub_bytes (N.of_nat (length y) - 42) 4 y with Some s => bytes_eqb s sig_zip64_locator | None => false end else false.
+
+(* None: not an archive the handler rewrites (unreadable, outside the modelled class, an error while copying).
+   Some (dom, rr): dom = the side conditions of zip_output_holds_members hold for this input;
+   rr = the archive written is read back as the clamped members. *)
+Definition zip_domain (init : Z * (N * N)) (mt : Z) (x : bytes) : option (bool * bool) :=
+  match zip_process init mt x with
+  | Some (Ok (y, _)) =>
+      match zip_read x with
+      | Some es =>
+          match copy_all x es with
+          | Ok outs =>
+              let outs' := map (fun o => fst (clamp_member (fst init) (snd init) o)) outs in
+              let dom := forallb (fun o => N.of_nat (length (zo_name o)) <? 65536) outs' && (N.of_nat (length outs') <? 65535) &&
+                         (N.of_nat (length (locals_of outs')) <? 4294967295) && (N.of_nat (length (central_of outs')) <? 4294967296) &&
+                         negb (has_locator y) in
+              let rr := match zip_read y with
+                        | Some es' => (length es' =? length es)%nat &&
+                                      match copy_all y es' with Ok o2 => zouts_eqb o2 (map renorm outs') | _ => false end
+                        | None => false
+                        end in
+              Some (dom, rr)
+          | _ => None
+          end
+      | None => None
+      end
+  | _ => None
+  end.
+
+Theorem zip_domain_sound epoch d t mt x rr :
+  bytes_ok x -> d < 65536 -> t < 65536 -> zip_domain (epoch, (d, t)) mt x = Some (true, rr) -> rr = true.
+Proof.
+  intros Hx Hd Ht. unfold zip_domain.
+  destruct (zip_process (epoch, (d, t)) mt x) as [[[y hm]| | |]|] eqn:H; try discriminate.
+  destruct (zip_output_holds_members epoch d t mt x y hm Hx Hd Ht H) as (es & outs & Er & Ec & Hrest).
+  rewrite Er, Ec. cbn [fst snd]. cbv zeta in Hrest |- *. destruct Hrest as (Ey & Hrr).
+  set (outs' := map (fun o => fst (clamp_member epoch (d, t) o)) outs) in *.
+  set (rrx := match zip_read y with
+              | Some es' => (length es' =? length es)%nat && match copy_all y es' with Ok o2 => zouts_eqb o2 (map renorm outs') | _ => false end
+              | None => false end).
+  intros E. injection E as Edom Err.
+  apply andb_prop in Edom. destruct Edom as [Edom Hloc]. apply andb_prop in Edom. destruct Edom as [Edom Hc].
+  apply andb_prop in Edom. destruct Edom as [Edom Hl]. apply andb_prop in Edom. destruct Edom as [Hnames Hn].
+  apply N.ltb_lt in Hc, Hl, Hn. apply negb_true_iff in Hloc.
+  assert (Hnames' : Forall (fun o => N.of_nat (length (zo_name o)) < 65536) outs').
+  { apply Forall_forall. intros o Ho. rewrite forallb_forall in Hnames. apply N.ltb_lt, Hnames, Ho. }
+  destruct (Hrr Hnames' Hn Hl Hc Hloc) as (es' & R & L & C).
+  unfold rrx in Err. rewrite R, L, C in Err. rewrite Nat.eqb_refl, zouts_eqb_refl in Err. symmetry. exact Err.
+Qed.
